@@ -255,8 +255,9 @@ def rdSparse (g : Cfg) (big : Bool) (cols : Int) : Nat → (c : Int) → (line :
       | some elems =>
         match (if big then rdStrBig g ls.length elems.toNat ls else rdStrNonbig g ls.length elems.toNat ls) with
         | some (ss, line' :: ls2) =>
-          match colHead line' with
-          | some (c', _) => rdSparse g big cols fuel c' line' ls2 (acc ++ ss.map fun s => (s.1, c.toNat, s.2))
+          -- only `int(line[c_slice])` is evaluated here: the row field of a later column header is never read
+          match pyInt? (slice line' 0 8) with
+          | some c1 => rdSparse g big cols fuel (c1 - 1) line' ls2 (acc ++ ss.map fun s => (s.1, c.toNat, s.2))
           | none => none
         | _ => none
       | none => none
